@@ -223,6 +223,13 @@ def emit_shape(idx, root, features, strategy_seed=0):
     for r in ex.regions:
         if r.name:
             sa("FSM::regionId<%s>() == %d" % (r.name, r.rid), "regionId(node %d) == %d" % (r.sid, r.rid))
+    # the helpers every state inherits (FSM::State::stateId<>() / regionId<>(), used inside callbacks) resolve in the same lists
+    for n in ex.states:
+        if n.name:
+            sa("FSM::State::template stateId<%s>() == %d" % (n.name, n.sid), "State::stateId(node %d) == %d" % (n.sid, n.sid))
+    for r in ex.regions:
+        if r.name:
+            sa("FSM::State::template regionId<%s>() == %d" % (r.name, r.rid), "State::regionId(node %d) == %d" % (r.sid, r.rid))
     sa("FSM::STATE_COUNT == %d" % ex.state_count, "STATE_COUNT == %d" % ex.state_count)
     sa("FSM::REGION_COUNT == %d" % ex.region_count, "REGION_COUNT == %d" % ex.region_count)
     sa("FSM::COMPO_COUNT == %d" % ex.compo_count, "COMPO_COUNT == %d" % ex.compo_count)
